@@ -564,13 +564,23 @@ def reportWarnings(obj: model.Documentable, warns: Sequence[str], **kwargs:Any) 
     for message in warns:
         obj.report(message, **kwargs)
 
-def reportErrors(obj: model.Documentable, errs: Sequence[ParseError], section:str='docstring') -> None:
+def reportErrors(obj: model.Documentable, errs: Sequence[ParseError], section:str='docstring', 
+                 conversion:bool=False) -> None:
+    """
+    Report the errors once per object.
+
+    @param conversion: Whether the errors come from the conversion of the parsed docstring
+        rather than from the parser: the conversion is tried each time the docstring is rendered,
+        its failure is reported once, also when the parser has reported problems for the object before.
+    """
     if not errs:
         return
 
     errors = obj.system.parse_errors[section]
+    reported = obj.system.parse_errors[f'{section} conversion'] if conversion else errors
 
-    if obj.fullName() not in errors:
+    if obj.fullName() not in reported:
+        reported.add(obj.fullName())
         errors.add(obj.fullName())
 
         for err in errs:
@@ -751,7 +761,7 @@ def safe_to_stan(parsed_doc: ParsedDocstring,
         errs = [get_to_stan_error(e)]
         stan = fallback(errs, parsed_doc, ctx)
         if report:
-            reportErrors(ctx, errs, section=section)
+            reportErrors(ctx, errs, section=section, conversion=True)
     return stan
 
 def format_docstring_fallback(errs: List[ParseError], parsed_doc:ParsedDocstring, ctx:model.Documentable) -> Tag:
